@@ -297,3 +297,10 @@ func platformReplay(r *harness.Run, c json.RawMessage) {
 		rep(r, "platform/"+res.Sig, res.Msg, pc)
 	}
 }
+
+func at(b []byte, i int) byte {
+	if i < len(b) {
+		return b[i]
+	}
+	return 0
+}
